@@ -49,7 +49,8 @@ MANIFEST = dict(
          'per-rendering object or under COOKLOCK -- after the repair no rendering stores anything on a compiled tag. Persistence: '
          '__getstate__ keeps every attribute except _v_* / _p_* and does not modify the template; munge stores the new source before '
          'compiling, recompiles exactly once, replaces the defaults when (and only when) a mapping or keywords are given (an empty mapping '
-         'included); a file-based template stores its file name and does not read the file at construction.',
+         'included); a file-based template stores its file name and does not read the file at construction.'
+         ' Sorting and reversing inside dtml-in never write to the sequence handed in (sort_sequence / reverse_sequence contracts, input-not-modified clauses); compile-and-publish protocol of String.__call__ as obligations over its symbolic execution.',
     note='Level other: the step obligations are proved, the induction over operation histories is argued. Trusted: pyvc, z3, CPython ast.',
     technique='contract-based deductive verification (pyvc symbolic execution with an effect trace: frame obligations) + AST write-site obligations',
     design_ref='DESIGN.md 4 C17',
